@@ -76,14 +76,34 @@ def _scan(stmts, known, adts):
 def thread_jumps(f, adts, max_hops=10):
     blocks = f['blocks']
     n = 0
-    for bi, b in enumerate(blocks):
-        if b.get('cleanup') or b['term']['t'] != 'goto':
+    for bi, b in enumerate(list(blocks)):
+        if b.get('cleanup'):
             continue
         known = {}
-        _scan(b['stmts'], known, adts)
+        via_call = False
+        if b['term']['t'] == 'goto':
+            _scan(b['stmts'], known, adts)
+            cur = b['term']['to']
+        elif b['term']['t'] == 'drop' and not b['term'].get('_threaded'):
+            # the value is built, then a local (an iterator, a guard) is dropped on the way out: the drop stays
+            _scan(b['stmts'], known, adts)
+            known.pop(b['term']['pl']['l'], None)
+            cur = b['term']['to']
+            via_call = True
+        elif b['term']['t'] == 'call' and (b['term']['callee'].get('def') or '') == 'std::ops::FromResidual::from_residual' and not b['term']['dest']['p'] \
+                and b['term']['to'] is not None and b['term']['to'] >= 0 and not b['term'].get('_threaded'):
+            # `from_residual(..)` always builds the failing variant of its result type
+            dty = b['term']['dest'].get('ty', '')
+            if dty.startswith('std::result::Result<'):
+                known[b['term']['dest']['l']] = ('v', 1)
+            elif dty.startswith('std::option::Option<'):
+                known[b['term']['dest']['l']] = ('v', 0)
+            cur = b['term']['to']
+            via_call = True
+        else:
+            continue
         if not known:
             continue
-        cur = b['term']['to']
         extra = []
         visited = {bi}
         hops = 0
@@ -109,6 +129,13 @@ def thread_jumps(f, adts, max_hops=10):
                     if lab == str(v):
                         tgt = tb
                         break
+                if via_call:
+                    # the call stays; its continuation becomes a fresh block carrying the copied statements
+                    blocks.append({'cleanup': False, 'stmts': extra, 'term': {'t': 'goto', 'to': tgt}})
+                    b['term']['to'] = len(blocks) - 1
+                    b['term']['_threaded'] = True
+                    n += 1
+                    break
                 b['stmts'].extend(extra)
                 b['term'] = {'t': 'goto', 'to': tgt}
                 n += 1
@@ -187,6 +214,18 @@ def split_webs(f):
         else:
             s = []
         succ[bi] = s
+    # only reachable code takes part (blocks cut off by threading / folding keep their stale definitions)
+    reach_ = {0}
+    todo_ = [0]
+    while todo_:
+        x_ = todo_.pop()
+        for y_ in succ[x_]:
+            if y_ not in reach_:
+                reach_.add(y_)
+                todo_.append(y_)
+    for i in range(nb):
+        if i not in reach_:
+            succ[i] = []
     preds = {i: [] for i in range(nb)}
     for i, ss in succ.items():
         for s in ss:
@@ -333,7 +372,7 @@ def lower_branch(f):
                 defs.setdefault(st['pl']['l'], []).append(st['rv'])
         t = b['term']
         if t['t'] == 'call' and not t['dest']['p']:
-            defs.setdefault(t['dest']['l'], []).append(None)
+            defs.setdefault(t['dest']['l'], []).append('residual' if (t['callee'].get('def') or '') == 'std::ops::FromResidual::from_residual' else None)
 
     def all_variant_defs(l, seen):
         if l in seen or len(seen) > 6:
@@ -346,6 +385,8 @@ def lower_branch(f):
         for rv in ds:
             if rv is None:
                 return False
+            if rv == 'residual':
+                continue       # the failing variant, built by the `?` of an inner call
             if rv['r'] == 'agg' and rv['kind'].get('k') == 'adt' and rv['kind'].get('variant') in ('Ok', 'Err', 'Some', 'None'):
                 n_agg += 1
             elif rv['r'] == 'use' and rv['a'].get('o') in ('copy', 'move') and not rv['a']['pl']['p']:
@@ -393,5 +434,156 @@ def lower_branch(f):
         blocks.extend([cont, brk, unr])
         b['stmts'].append({'s': 'assign', 'pl': pl(L, 'isize'), 'rv': {'r': 'discr', 'pl': pl(l, lty), 'adt': adt}, 'line': line, 'exp': True})
         b['term'] = {'t': 'switch', 'd': {'o': 'move', 'pl': pl(L, 'isize')}, 'targets': [[str(gi), B], [str(bd), B + 1]], 'otherwise': B + 2, 'line': line, 'exp': True}
+        n += 1
+    return n
+
+
+# ---------------------------------------------------------------------------------------------------------
+def lower_fnptr_calls(f):
+    """a call through a local function pointer all of whose values are function items of the crate
+    (`let solver = match m { A => f_a, B => f_b }; solver(args)`) becomes a switch over a selector set next to each of
+    those assignments, with one direct call per item: the dispatch is visible to the rules again."""
+    blocks = f['blocks']
+    n = 0
+    for bi in range(len(blocks)):
+        t = blocks[bi]['term']
+        if t['t'] != 'call' or 'indirect' not in (t.get('callee') or {}):
+            continue
+        op = t['callee']['indirect']
+        if op.get('o') not in ('copy', 'move') or op['pl']['p']:
+            continue
+        roots = []
+        ok = True
+        todo, done = [op['pl']['l']], set()
+        while todo and ok:
+            l = todo.pop()
+            if l in done:
+                continue
+            done.add(l)
+            found = False
+            for bj, b in enumerate(blocks):
+                for si, st in enumerate(b['stmts']):
+                    if st['s'] != 'assign' or st['pl']['l'] != l:
+                        continue
+                    if st['pl']['p']:
+                        ok = False
+                        continue
+                    found = True
+                    rv = st['rv']
+                    src = rv.get('a') if rv['r'] in ('use', 'cast') else None
+                    if src is not None and src.get('o') == 'const' and src['c'].get('k') == 'fn':
+                        roots.append((bj, si, src['c']))
+                    elif rv['r'] == 'use' and src is not None and src.get('o') in ('copy', 'move') and not src['pl']['p']:
+                        todo.append(src['pl']['l'])
+                    else:
+                        ok = False
+                tt = b['term']
+                if tt['t'] == 'call' and tt['dest']['l'] == l:
+                    ok = False
+            if not found or l <= f['argc']:
+                ok = False
+        if not ok or not roots or len(roots) > 8:
+            continue
+        line = t.get('line')
+        sel = len(f['locals'])
+        f['locals'].append({'ty': 'isize', 'adt': ''})
+        pl = lambda l_, ty: {'l': l_, 'p': [], 'ty': ty}
+        # selector assignments (insert from the back so that statement indices stay valid)
+        for i, (bj, si, c) in sorted(enumerate(roots), key=lambda x: (x[1][0], -x[1][1])):
+            blocks[bj]['stmts'].insert(si + 1, {'s': 'assign', 'pl': pl(sel, 'isize'), 'rv': {'r': 'use', 'a': {'o': 'const', 'c': {'k': 'val', 'v': str(i), 'ty': 'isize', 's': '%d_isize' % i}}}, 'line': line, 'exp': True})
+        B = len(blocks)
+        targets = []
+        for i, (bj, si, c) in enumerate(roots):
+            tt = copy.deepcopy(t)
+            tt['callee'] = {'def': c['path'], 'args': c.get('args', []), 'resolved': True, 'path': c['path'], 'trait': '', 'self': '', 'local': True, 'krate': ''}
+            blocks.append({'cleanup': False, 'stmts': [], 'term': tt})
+            targets.append([str(i), B + i])
+        blocks.append({'cleanup': False, 'stmts': [], 'term': {'t': 'unreachable'}})
+        blocks[bi]['term'] = {'t': 'switch', 'd': {'o': 'copy', 'pl': pl(sel, 'isize')}, 'targets': targets, 'otherwise': B + len(roots), 'line': line, 'exp': True}
+        n += 1
+    return n
+
+
+def fold_known_switches(f):
+    """a switch on `discriminant(x)` where every (reachable) definition of x builds the same variant is a goto"""
+    blocks = f['blocks']
+    succ = {}
+    for bi, b in enumerate(blocks):
+        t = b['term']
+        k = t['t']
+        succ[bi] = [t['to']] if k in ('goto', 'drop', 'assert') else ([x[1] for x in t['targets']] + [t['otherwise']]) if k == 'switch' else \
+            ([t['to']] if k == 'call' and t['to'] is not None and t['to'] >= 0 else [])
+    reach = {0}
+    todo = [0]
+    while todo:
+        x = todo.pop()
+        for y in succ[x]:
+            if y not in reach:
+                reach.add(y)
+                todo.append(y)
+    defs = {}
+    for bi in reach:
+        b = blocks[bi]
+        for st in b['stmts']:
+            if st['s'] == 'assign':
+                if not st['pl']['p']:
+                    defs.setdefault(st['pl']['l'], []).append(st['rv'])
+                else:
+                    defs.setdefault(st['pl']['l'], []).append(None)
+        t = b['term']
+        if t['t'] == 'call' and not t['dest']['p']:
+            dty = t['dest'].get('ty', '')
+            if (t['callee'].get('def') or '') == 'std::ops::FromResidual::from_residual' and dty.startswith(('std::result::Result<', 'std::option::Option<')):
+                defs.setdefault(t['dest']['l'], []).append({'r': 'agg', 'kind': {'k': 'adt', 'path': 'std::result::Result' if dty.startswith('std::result') else 'std::option::Option',
+                                                                                  'variant': 'Err' if dty.startswith('std::result') else 'None'}, 'ops': []})
+            else:
+                defs.setdefault(t['dest']['l'], []).append(None)
+
+    def variant_of(l, seen):
+        if l in seen or len(seen) > 6 or l <= f['argc']:
+            return None
+        seen.add(l)
+        ds = defs.get(l)
+        if not ds:
+            return None
+        out = set()
+        for rv in ds:
+            if rv is None:
+                return None
+            if rv['r'] == 'agg' and rv['kind'].get('k') == 'adt':
+                d = _discr_of(rv['kind'], {})
+                if d is None:
+                    return None
+                out.add(d)
+            elif rv['r'] == 'use' and rv['a'].get('o') in ('copy', 'move') and not rv['a']['pl']['p']:
+                v = variant_of(rv['a']['pl']['l'], seen)
+                if v is None:
+                    return None
+                out.add(v)
+            else:
+                return None
+        return next(iter(out)) if len(out) == 1 else None
+    n = 0
+    for bi in sorted(reach):
+        b = blocks[bi]
+        t = b['term']
+        if t['t'] != 'switch' or t['d'].get('o') not in ('copy', 'move') or t['d']['pl']['p']:
+            continue
+        dl = t['d']['pl']['l']
+        src = None
+        for st in reversed(b['stmts']):
+            if st['s'] == 'assign' and not st['pl']['p'] and st['pl']['l'] == dl:
+                src = st['rv']
+                break
+        if src is None or src['r'] != 'discr' or src['pl']['p']:
+            continue
+        v = variant_of(src['pl']['l'], set())
+        if v is None:
+            continue
+        tgt = t['otherwise']
+        for lab, tb in t['targets']:
+            if lab == str(v):
+                tgt = tb
+        b['term'] = {'t': 'goto', 'to': tgt}
         n += 1
     return n
